@@ -197,3 +197,12 @@ for name in ("add", "maximum", "minimum", "fmax", "fmin", "hypot"):
     T("ufunc." + name + ".reduce", "initial-q|(4,)", (lambda a, q, f=getattr(np, name): f.reduce(a, initial=q)), {"a": I("X", (4,)), "q": I("X", ())}, **({"tol": True} if name == "hypot" else {}))
 T("ndarray.sum", "initial-q|(4,)", lambda a, q: a.sum(initial=q), {"a": I("X", (4,)), "q": I("X", ())})
 T("ndarray.max", "initial-q|(4,)", lambda a, q: a.max(initial=q), {"a": I("X", (4,)), "q": I("X", ())})
+
+# ---- 0-d inputs with a 0-d out= buffer through the functions that wrap the result themselves (hunt round) -------------
+T("np.clip", "out0d|()", lambda a, lo, hi, out: np.clip(a, lo, hi, out=out), {"a": I("X", ()), "lo": I("X", (), "neg"), "hi": I("X", (), "pos"), "out": I("X", (), "zeros")}, inplace=("out",))
+T("np.clip", "bare-out0d|()", lambda a, lo, hi, out: np.clip(a, lo, hi, out=out), {"a": I("X", ()), "lo": I("X", (), "neg"), "hi": I("X", (), "pos"), "out": I(None, (), "zeros")}, cls="same", inplace=("out",))
+T("np.around", "out0d|()", lambda a, out: np.around(a, 1, out=out), {"a": I("X", ()), "out": I("X", (), "zeros")}, inplace=("out",), noncov="rounding is not scale-covariant")
+T("np.around", "bare-out0d|()", lambda a, out: np.around(a, 1, out=out), {"a": I("X", ()), "out": I(None, (), "zeros")}, cls="same", inplace=("out",), noncov="rounding is not scale-covariant")
+T("np.choose", "out0d|()", lambda x, y, out: np.choose(1, [x, y], out=out), {"x": I("X", ()), "y": I("X", ()), "out": I("X", (), "zeros")}, inplace=("out",))
+T("np.choose", "bare-out0d|()", lambda x, y, out: np.choose(0, [x, y], out=out), {"x": I("X", ()), "y": I("X", ()), "out": I(None, (), "zeros")}, cls="same", inplace=("out",))
+T("np.stack", "out|(3,)", lambda x, y, out: np.stack([x, y], out=out), {"x": I("X", (3,)), "y": I("X", (3,)), "out": I("X", (2, 3), "zeros")}, inplace=("out",))
